@@ -68,7 +68,16 @@ pub fn c13(out: &mut Out, ex: &mut Exec, seed: u64, thorough: bool) {
         let real = rng.chance(1, 3); let dbg = rng.chance(1, 3);
         let kb: Vec<u8> = (0..6 + rng.below(3)).map(|_| 0x61 + rng.below(26) as u8).collect();
         let nwords = prog.words().len() as u16;
-        let base_setup = |id: &str, real: bool, dbg: bool, prog: &Asm, kb: &[u8]| -> Vec<String> { let mut v = base_setup(id, real, dbg, prog, kb); if mcr_store { v[1] = format!("sim new 0 {} {} 1 0000", real as u8, dbg as u8); } v };
+        // every fourth case: a scripted device raises interrupts (vector x81, priority 4, handler = bare RTI at x1000) at some of
+        // the first 300 polls: a dispatch takes a step of the run loop but executes no instruction, and every run-style call
+        // must still execute exactly the instructions single steps would
+        let intr_line: Option<String> = if id % 4 == 3 {
+            let mut irng = Rng::new(seed ^ 0x13_0000 ^ id as u64);
+            Some(format!("sim intr {}", (0..300).map(|_| if irng.chance(1, 9) { "v81p4" } else { "-" }).collect::<Vec<_>>().join(",")))
+        } else { None };
+        if intr_line.is_some() { out.hist.hit("interrupts_during_runs"); }
+        let base_setup = |id: &str, real: bool, dbg: bool, prog: &Asm, kb: &[u8]| -> Vec<String> { let mut v = base_setup(id, real, dbg, prog, kb); if mcr_store { v[1] = format!("sim new 0 {} {} 1 0000", real as u8, dbg as u8); }
+            if let Some(l) = &intr_line { v.push("sim rawmem 1000 8000/ffff".into()); v.push("sim rawmem 0181 1000/ffff".into()); v.push(l.clone()); } v };
         if mcr_store { out.hist.hit("program_stores_to_mcr"); }
         // A: unbroken
         let mut la = base_setup(&format!("{id}a"), real, dbg, &prog, &kb);
@@ -100,7 +109,9 @@ pub fn c13(out: &mut Out, ex: &mut Exec, seed: u64, thorough: bool) {
         let rb0 = run_lines(out, ex, &lb);
         out.evaluations += lb.len() as i64;
         for r in &rb0 { out.hist.hit(&format!("res_{}", r.split(' ').next().unwrap_or(""))); if r.contains("hb=1") { out.hist.hit("stopped_at_breakpoint"); } if r.contains("TIMEOUT") { out.hist.hit("timeout"); } }
-        if only_limits && !real && !near_wrap && !mcr_store {
+        // (with a scripted device the comparison is left to the model: its schedule is indexed by polls, and resuming a halted
+        // machine polls again, so the split history does not see the same device behaviour as the unbroken one)
+        if only_limits && !real && !near_wrap && !mcr_store && intr_line.is_none() {
             let fin = ["sim run 20000".to_string(), "sim memhash".to_string()];
             let rb = run_lines(out, ex, &fin);
             // oracle: split execution ends in the same state and instruction count as the unbroken run
@@ -113,7 +124,7 @@ pub fn c13(out: &mut Out, ex: &mut Exec, seed: u64, thorough: bool) {
         if seen.insert(crate::simx::fnv(lb.iter().flat_map(|l| l.bytes().map(|b| b as u64)))) { out.nontrivial += 1; }
         if out.samples.len() < 2 { let mut s = Json::obj(); s.set("ops", Json::Arr(lb.iter().skip(7).map(|x| Json::s(x.clone())).collect())); s.set("unbroken_final", Json::s(ra[ra.len() - 2].clone())); out.sample(s); }
     }
-    out.rule = "generated terminating user programs (counted loop, JSR/JSRR subroutine with nested call, GETC/OUT/PUTS traps, HALT), virtual and real traps, debug frames on/off; random sequences of run_with_limit k, step_in, step_over, step_out, run, breakpoint inserts (PC / register / memory comparators of all kinds) and MCR clears injected at chosen loop iterations; every call's resulting state, instruction count and hit_halt/hit_breakpoint compared with the model; oracle on the implementation: a run chopped into run_with_limit/step_in segments ends in the same state, memory and instruction count as one unbroken run".into();
+    out.rule = "generated terminating user programs (counted loop, JSR/JSRR subroutine with nested call, GETC/OUT/PUTS traps, HALT), virtual and real traps, debug frames on/off; in every fourth case a scripted device interrupts (vector x81, bare-RTI handler) at random polls among the first 300; random sequences of run_with_limit k, step_in, step_over, step_out, run, breakpoint inserts (PC / register / memory comparators of all kinds) and MCR clears injected at chosen loop iterations; every call's resulting state, instruction count and hit_halt/hit_breakpoint compared with the model; oracle on the implementation: a run chopped into run_with_limit/step_in segments ends in the same state, memory and instruction count as one unbroken run".into();
 }
 
 /// C10: interrupts are transparent. Handler kinds: bare RTI; save/restore R0,R1 + bump a supervisor counter; keyboard reader.
@@ -315,13 +326,18 @@ pub fn c12(out: &mut Out, ex: &mut Exec, seed: u64, thorough: bool) {
         let mut a = Asm::new(0x3000);
         a.ld(0, "CH"); a.trap(0x21); a.add_i(1, 1, 1);
         let kind = rng.below(6);
-        match kind { 0 => a.rti(), 1 => a.w(0xD000 | rng.u16() & 0xFFF), 2 => a.w(0x8001), 3 => { a.ld(2, "BADP"); a.ldr(3, 2, 0); } 4 => { a.ld(2, "BADP"); a.str(3, 2, 0); } _ => { a.ld(2, "BADP"); a.jmp(2); } }
+        // every seventh case faults in SUPERVISOR mode: the program's own service routine (vector x30 -> x1000, supplied with the
+        // program) executes a reserved or malformed instruction; the exception is vectored all the same
+        let sup_fault: Option<u16> = if id % 7 == 6 { Some(if id % 2 == 0 { 0xD000 | (id as u16 & 0xFFF) } else { 0x8001 }) } else { None };
+        let kind = if sup_fault.is_some() { 6 } else { kind };
+        match kind { 6 => a.trap(0x30), 0 => a.rti(), 1 => a.w(0xD000 | rng.u16() & 0xFFF), 2 => a.w(0x8001), 3 => { a.ld(2, "BADP"); a.ldr(3, 2, 0); } 4 => { a.ld(2, "BADP"); a.str(3, 2, 0); } _ => { a.ld(2, "BADP"); a.jmp(2); } }
         a.trap(0x25);
         a.label("CH"); a.w(0x21 + rng.below(90) as u16);
         a.label("BADP"); a.w(*rng.pick(&[0x0000u16, 0x2FFF, 0xFE00, 0xFFFF, 0x0200]));
         let mut res = vec![];
         for real in [false, true] {
             let mut v = base_setup(&format!("f{id}{}", if real { "r" } else { "v" }), real, false, &a, &[]);
+            if let Some(w) = sup_fault { v.push("sim rawmem 0030 1000/ffff".into()); v.push(format!("sim rawmem 1000 {:04x}/ffff 8000/ffff", w)); out.hist.hit("fault_in_supervisor_mode"); }
             v.push("sim run 5000".into()); v.push("sim memhash u".into());
             let r = run_lines(out, ex, &v);
             out.evaluations += 1;
@@ -337,7 +353,7 @@ pub fn c12(out: &mut Out, ex: &mut Exec, seed: u64, thorough: bool) {
             if !ok { out.fail(out.lines, format!("virtual {vres} but real traps gave `{}` (expected OS message and halt)", res[1].0), res[1].2.join("\n")); } else { out.hist.hit("exception_message_ok"); }
         }
     }
-    out.rule = "C11's trap programs run under both virtual and real traps (same display, R0-R5, user memory, then stop through the OS), plus user programs that fault (RTI in user mode, reserved opcode, malformed instruction, load/store/jump outside user space): virtual traps report the error, real traps print the OS message for that exception and halt; all compared with the model".into();
+    out.rule = "C11's trap programs run under both virtual and real traps (same display, R0-R5, user memory, then stop through the OS), plus user programs that fault (RTI in user mode, reserved opcode, malformed instruction, load/store/jump outside user space; every seventh one inside a service routine of its own, i.e. in supervisor mode): virtual traps report the error, real traps print the OS message for that exception and halt; all compared with the model".into();
 }
 
 /// C29: loading object images.
@@ -409,6 +425,9 @@ pub fn c30(out: &mut Out, ex: &mut Exec, seed: u64, thorough: bool) {
                 _ => format!("sim rmdev {}", 3 + rng.below(3)),
             });
         }
+        // every fifth case: the clock-enable bit is ON when reset is called (the host has just stored to the MCR): the handle is
+        // kept, but memory — including the raw word at xFFFE — is that of a new machine
+        if id % 5 == 4 { v.push(format!("sim hostwrite fffe {:04x} ffff 1 0 1 0", 0x8000 | (id as u16 & 0x7FFF))); out.hist.hit("reset_with_mcr_on"); }
         v.push("sim reset".into()); v.push("sim memhash".into()); v.push("sim iregs".into());
         // configuration survives: breakpoints still stop a run, devices still dispatch
         v.push("sim hostread fe10 1 0 1 0".into()); v.push("sim hostwrite fffc 0302 ffff 1 0 1 0".into()); v.push("sim hostread fffe 1 0 1 0".into()); v.push("sim run 5".into());
@@ -427,7 +446,7 @@ pub fn c30(out: &mut Out, ex: &mut Exec, seed: u64, thorough: bool) {
         if seen.insert(crate::simx::fnv(v.iter().flat_map(|l| l.bytes().map(|b| b as u64)))) { out.nontrivial += 1; }
         if out.samples.len() < 2 { let mut s = Json::obj(); s.set("ops", Json::Arr(v.iter().skip(5).map(|x| Json::s(x.chars().take(100).collect::<String>())).collect())); s.set("after_reset", Json::s(dreset.clone())); out.sample(s); }
     }
-    out.rule = "random histories (runs, steps, step_over, flag changes incl. debug_frames, breakpoint inserts/removals, recording devices added/removed, internal registers mapped at I/O addresses, MMIO writes to PSR/PC/MCR/devices, keyboard input) followed by reset; state digest, full-memory hash, internal-register map, device dispatch and breakpoint behaviour after reset compared with the model; oracle on the implementation: registers, PC, PSR, saved SP, frame depth/list, instruction count, halt/breakpoint status equal those of Simulator::new with the current flags".into();
+    out.rule = "random histories (runs, steps, step_over, flag changes incl. debug_frames, breakpoint inserts/removals, recording devices added/removed, internal registers mapped at I/O addresses, MMIO writes to PSR/PC/MCR/devices, keyboard input; in every fifth case a host store that turns the MCR on directly before) followed by reset; state digest, full-memory hash, internal-register map, device dispatch and breakpoint behaviour after reset compared with the model; oracle on the implementation: registers, PC, PSR, saved SP, frame depth/list, instruction count, halt/breakpoint status equal those of Simulator::new with the current flags".into();
 }
 
 /// C33: keyboard/display exactly-once under lock contention (per-step lock holding).
@@ -462,6 +481,9 @@ pub fn c33(out: &mut Out, ex: &mut Exec, seed: u64, thorough: bool) {
         // every fourth case: keyboard interrupts enabled (a not-ready KBSR then reads x4000, not x0000) while the program runs at
         // priority 7, so the request is never taken and GETC must still wait for the ready bit
         if id % 4 == 2 { v.push("sim hostwrite fffc 8702 ffff 1 0 0 0".into()); v.push("sim hostwrite fe00 4000 ffff 1 0 0 0".into()); }
+        // every eighth case: KBSR is written with the interrupt-enable bit (14) CLEAR and other bits set (a program clearing IE
+        // with `KBSR & xBFFF` writes back the ready bit 15): keyboard interrupts stay off and GETC keeps polling
+        if id % 8 == 4 { v.push(format!("sim hostwrite fe00 {} ffff 1 0 0 0", ["8000", "bfff", "8001", "a000"][(id / 8 % 4) as usize])); }
         let exhaustive_bits: Option<u32> = if len <= 2 && id < 4000 { Some(rng.next() as u32 & 0xFFFF) } else { None };
         let p_lock = rng.below(40) as u64;
         // the late-input cases run without lock contention: any failure there is a violation, never the known finding
@@ -510,5 +532,5 @@ pub fn c33(out: &mut Out, ex: &mut Exec, seed: u64, thorough: bool) {
         if seen.insert(crate::simx::fnv(v.iter().flat_map(|l| l.bytes().map(|b| b as u64)))) && (kl || dl || v.iter().any(|l| l.starts_with("sim lock"))) { out.nontrivial += 1; }
         if out.samples.len() < 2 { let mut s = Json::obj(); s.set("input", Json::s(expect.clone())); s.set("locks", Json::Arr(v.iter().filter(|l| l.starts_with("sim lock")).take(12).map(|x| Json::s(x.clone())).collect())); s.set("display", Json::s(ds.clone())); out.sample(s); }
     }
-    out.rule = "GETC/OUT echo programs (input length 1-3, every 10th up to 30) + PUTS (+ PUTSP of a packed string in every third case), virtual HALT; the harness holds the keyboard / display buffer lock (an exclusive write guard, or in every third case a shared read guard) around chosen step_in calls (try_write then fails deterministically): for short inputs a 16-bit pattern over the first 16 device accesses of the OS routines (KBSR/KBDR/DSR/DDR, identified by PC), otherwise random per-step patterns; in every fifth case side-effect-free host reads of KBDR/KBSR (a debugger's watch) between steps; every step compared with the model; oracle: display = input bytes exactly once in order, keyboard empty; failures with a lock held at a KBDR read or DDR store that directly follows a free poll of the same device (the race between poll and data access) are the recorded finding F19; a data access refused without such a poll before it, and any other failure, is a violation".into();
+    out.rule = "GETC/OUT echo programs (input length 1-3, every 10th up to 30) + PUTS (+ PUTSP of a packed string in every third case), virtual HALT; the harness holds the keyboard / display buffer lock (an exclusive write guard, or in every third case a shared read guard) around chosen step_in calls (try_write then fails deterministically): for short inputs a 16-bit pattern over the first 16 device accesses of the OS routines (KBSR/KBDR/DSR/DDR, identified by PC), otherwise random per-step patterns; in every eighth case KBSR written with bit 14 clear and other bits set (interrupts must stay off); in every fifth case side-effect-free host reads of KBDR/KBSR (a debugger's watch) between steps; every step compared with the model; oracle: display = input bytes exactly once in order, keyboard empty; failures with a lock held at a KBDR read or DDR store that directly follows a free poll of the same device (the race between poll and data access) are the recorded finding F19; a data access refused without such a poll before it, and any other failure, is a violation".into();
 }
